@@ -276,12 +276,14 @@ def run_case(spec, work):
             targets[tuple(p)] = t2
             ctx.bump('override_runs')
     n_proc = int(rng.integers(1, 5))
+    gat = int(rng.choice([1, 1, 2, 5]))
     cutoffs = [0, 3, 10 ** 7]
     cutoff = int(cutoffs[int(rng.integers(3))])
     what = (f'source={spec["source"]} class={klass} '
             f'leaves={len(model.leaves)} genes={n_genes} '
             f'query={len(query)} target={target} override={override} '
-            f'n_processors={n_proc} behemoth_cutoff={cutoff}')
+            f'n_processors={n_proc} behemoth_cutoff={cutoff} '
+            f'genes_at_a_time={gat}')
 
     def select(n_processors, behemoth_cutoff):
         with pw.quiet():
@@ -289,7 +291,7 @@ def run_case(spec, work):
                 marker_cache_path=path, query_gene_names=list(query),
                 taxonomy_tree=tree, n_per_utility=target,
                 n_processors=n_processors,
-                behemoth_cutoff=behemoth_cutoff, genes_at_a_time=1,
+                behemoth_cutoff=behemoth_cutoff, genes_at_a_time=gat,
                 n_per_utility_override=override, parent_list=None,
                 tmp_dir=str(tmp))
         return {(k if k is None else tuple(k)): list(v)
